@@ -174,6 +174,41 @@ func (d *gnDesc) descend(t reflect.Type, v reflect.Value, e *yang.Entry, s *gnSi
 			ent, kvals, _ = d.g.newEntry(entryT, ce, 9)
 			s.exists = false
 			s.fresh = true
+			if len(es) > 0 && rng.Intn(3) == 0 {
+				// the keys of an existing entry with one string key replaced by the text "*": without
+				// wildcard handling that names a new entry, not the existing ones
+				kfs := d.g.keyFieldNames(entryT, ce)
+				var strPos []int
+				for q, kf := range kfs {
+					if kv := ent.Elem().FieldByName(kf); kv.Kind() == reflect.Ptr && kv.Type().Elem().Kind() == reflect.String {
+						strPos = append(strPos, q)
+					}
+				}
+				ke := es[rng.Intn(len(es))]
+				allPtr := true
+				for _, kf := range kfs {
+					if kv := ke.entry.Elem().FieldByName(kf); kv.Kind() != reflect.Ptr || kv.IsNil() {
+						allPtr = false // enumerated / union key leaves, unset key leaves: not here
+					}
+				}
+				if len(strPos) > 0 && len(kvals) == len(kfs) && allPtr {
+					star := strPos[rng.Intn(len(strPos))]
+					for q, kf := range kfs {
+						dst := ent.Elem().FieldByName(kf)
+						if q == star {
+							st := "*"
+							dst.Set(reflect.ValueOf(&st))
+						} else {
+							dst.Set(mgCloneValue(ke.entry.Elem().FieldByName(kf)))
+						}
+						kv := dst
+						if kv.Kind() == reflect.Ptr {
+							kv = kv.Elem()
+						}
+						kvals[q] = kv
+					}
+				}
+			}
 			// is it by chance an existing key?
 			for _, ke := range es {
 				same := len(ke.keys) == len(kvals)
@@ -1095,6 +1130,15 @@ func gnNodeStream(rng *rand.Rand, n int, tier string, out string) (*Summary, err
 					break
 				}
 			}
+		}
+		if !replaying || rp.Index == -1 {
+			// every-leaf delete sweep (its own PRNG: the main sequence above is not disturbed)
+			trees, maxLeaves := 1, 120
+			if tier == "thorough" {
+				trees, maxLeaves = 6, 400
+			}
+			gnDeleteSweep(p, rand.New(rand.NewSource(seed^vdHash(name))), trees, maxLeaves, tf, &id, sum,
+				gnReplay{Seed: seed, N: n, Tier: tier, Index: -1})
 		}
 		if tier == "thorough" && !replaying {
 			// exhaustive small scope: every leaf / leaf-list reachable through containers x every
